@@ -126,10 +126,14 @@ func spanCCW(ux, uy, vx, vy, wx, wy float64) bool {
 	return cross(ux, uy, wx, wy) >= 0 || cross(wx, wy, vx, vy) >= 0
 }
 
-// witness search for one side: side 0 left, 1 bottom, 2 right, 3 top
+// witness search for one side: side 0 left, 1 bottom, 2 right, 3 top.
+// Robust candidates (Bézier parameters, arc end points) are verified by the judge by exact evaluation only; fragile
+// ones (the extreme directions of an arc, binary64 unit vectors) must in addition pass the judge's EXACT in-span test,
+// which a point that coincides with an end point of the arc up to rounding can fail. A robust candidate therefore wins
+// whenever it is as good as the best fragile one up to 1e-10 (relative).
 func witness(segs []wseg, side int, target float64) string {
-	best := math.Inf(1)
-	w := "WN"
+	bestR, bestF := math.Inf(1), math.Inf(1)
+	wR, wF := "WN", "WN"
 	for i, s := range segs {
 		if s.kind != 'A' {
 			c := s.x
@@ -137,34 +141,32 @@ func witness(segs []wseg, side int, target float64) string {
 				c = s.y
 			}
 			for _, t := range crit(c) {
-				if d := math.Abs(bez(c, t) - target); d < best {
-					best = d
-					w = fmt.Sprintf("(WT %s %s)", cq.N(i), cq.F(t))
+				if d := math.Abs(bez(c, t) - target); d < bestR {
+					bestR = d
+					wR = fmt.Sprintf("(WT %s %s)", cq.N(i), cq.F(t))
 				}
 			}
 			continue
 		}
 		a := s.arc
-		cs, sn := float64(a.CsN)/float64(a.H), float64(a.SnN)/float64(a.H)
 		// the end points of the arc (exact): parameter 0 / 1
 		for k, pt := range [][2]float64{{a.Sx, a.Sy}, {a.Ex, a.Ey}} {
 			val := pt[0]
 			if side == 1 || side == 3 {
 				val = pt[1]
 			}
-			if d := math.Abs(val - target); d < best {
-				best = d
-				w = fmt.Sprintf("(WT %s %d)", cq.N(i), k)
+			if d := math.Abs(val - target); d < bestR {
+				bestR = d
+				wR = fmt.Sprintf("(WT %s %d)", cq.N(i), k)
 			}
 		}
-		var cands [][2]float64
+		cs, sn := float64(a.CsN)/float64(a.H), float64(a.SnN)/float64(a.H)
 		nx := math.Hypot(a.Rx*cs, a.Ry*sn)
 		ny := math.Hypot(a.Rx*sn, a.Ry*cs)
 		ext := [][2]float64{{a.Rx * cs / nx, -a.Ry * sn / nx}, {-a.Rx * cs / nx, a.Ry * sn / nx}, {a.Rx * sn / ny, a.Ry * cs / ny}, {-a.Rx * sn / ny, -a.Ry * cs / ny}}
 		u0x, u0y := a.Sx-a.Cx, a.Sy-a.Cy
 		v0x, v0y := a.Ex-a.Cx, a.Ey-a.Cy
 		for _, e := range ext {
-			// renormalise (one Newton step) so that u^2+v^2 = 1 within an ulp
 			n := math.Hypot(e[0], e[1])
 			e[0], e[1] = e[0]/n, e[1]/n
 			wx := a.Rx*e[0]*cs - a.Ry*e[1]*sn
@@ -173,24 +175,23 @@ func witness(segs []wseg, side int, target float64) string {
 			if !a.Sweep {
 				in = spanCCW(v0x, v0y, u0x, u0y, wx, wy)
 			}
-			if in {
-				cands = append(cands, e)
+			if !in {
+				continue
 			}
-		}
-		for _, e := range cands {
-			x := a.Cx + a.Rx*e[0]*cs - a.Ry*e[1]*sn
-			y := a.Cy + a.Rx*e[0]*sn + a.Ry*e[1]*cs
-			val := x
+			val := a.Cx + wx
 			if side == 1 || side == 3 {
-				val = y
+				val = a.Cy + wy
 			}
-			if d := math.Abs(val - target); d < best {
-				best = d
-				w = fmt.Sprintf("(WA %s %s %s)", cq.N(i), cq.F(e[0]), cq.F(e[1]))
+			if d := math.Abs(val - target); d < bestF {
+				bestF = d
+				wF = fmt.Sprintf("(WA %s %s %s)", cq.N(i), cq.F(e[0]), cq.F(e[1]))
 			}
 		}
 	}
-	return w
+	if bestR <= bestF+1e-10*(1+math.Abs(target)) {
+		return wR
+	}
+	return wF
 }
 
 // freeArc: an arc with dyadic end points and radii whose centre is irrational in general. The centre is computed
